@@ -65,7 +65,7 @@ _DED = {
     "C03": "Discharged: soundness of get_from_proof -- for an arbitrary finite list of well-formed nodes offered as proof (loop over the proof with the scratch database under the store invariant) and an arbitrary root, the call returns hlk(root node, nibbles(key)), the value the root denotes in the ideal-hash reading, or raises BadTrieProof; get (the lookup it evaluates) as in C01. Completeness (get_from_proof(root, key, get_proof(key)) = get(key)), `only nodes on the key's path` and `BadTrieProof whenever a path node is withheld` are bounded only (_get_proof is not under contract).",
     "C04": 'Discharged: every store write of _persist_node / _set_raw_node / _set_root_node is content-addressed and leaves an existing entry unchanged (store-write obligations at every db[k] = v reached in _set / _delete / set / delete), `store-only-grows` postconditions of the write path, squash_changes on a non-pruning trie (commit applies no deletes; an aborted block or a failing write leaves every old entry), _complete_pruning is a no-op without pruning, ScratchDB never writes the wrapped store while a batch is open, at_root yields a non-pruning snapshot over the same database at the requested root and leaves the trie untouched. That old roots stay *readable* follows from `store only grows` and the ideal-hash reading (what a root denotes does not depend on the database); several tries sharing one database are bounded only.',
     "C05": "Discharged: squash_changes with the client block modelled as an arbitrary sequence of operations on the batch trie (havoc of the batch trie constrained by its own contracts): normal exit adopts the batch root and commits the buffered writes (deletes only when pruning), exceptional exit and a failing write during commit leave root, store entries and reference counts as before; ScratchDB.batch_commit all-or-nothing. `no node that served only intermediate states is added` is bounded only.",
-    "C06": "Discharged: _prune_node (one more pending prune iff the node is hashed and the trie prunes), _persist_node / _set_raw_node counting, _complete_pruning (per-key loop invariant: decrement, delete at zero), squash_changes adopting the batch's counts. The global accounting invariant (count = number of references in the live trie, after every history) is a whole-history property carried by the bounded stand-in and by regenerate_ref_count comparison, not by a pyvc obligation.",
+    "C06": "Discharged (for an arbitrary node hash g, ghost): the exactness invariant of a pruning trie -- count(g) = RC(root, g) = [root = g] + hrefs(node(root), g) (the number of references to g in the tree unfolding of the trie, what regenerate_ref_count recomputes) and `g is stored <=> count(g) >= 1` -- is preserved by set and delete (units set#pruning / delete#pruning), through: count-delta contracts of the recursive write path (_set / _delete / _normalize_branch_node on a pruning trie: count - pending changes by hrefs(result) - hrefs(argument) - [argument is g]; a node enters the store exactly when it is counted), _set_root_node#pruning (new root counted, a too-small old root marked), _prune_node, _persist_node / _set_raw_node counting with frames, _complete_pruning (dictionary-loop invariant: every pending prune applied exactly), squash_changes adopting the batch's counts. A failing set / delete leaves the counts untouched. Not discharged: that hrefs is what regenerate_ref_count computes (its work-list loop is not under contract), exactness across squash_changes batches as a whole (the batch trie's own operations are the same units, the composition is bounded), the initial state.",
     "C07": "Discharged: _traverse_from / _traverse / _get / get / exists raise MissingTraversalNode / MissingTrieNode only with a hash absent from the database, with the consumed prefix of the key, and such that the named node lies on the requested path right after that prefix (view equation for an arbitrary continuation); get names the root and the key; lookups modify nothing (frame obligations). Write path (non-pruning): a failing _set / _delete / set / delete has written nothing to the database and left the root unchanged (reads precede writes: _delete returns blank exactly when nothing was written), and names an absent hash with root and key. A failing _set / set names the root or a hashed node that a walk of the key dereferences (hneed). For a failing *delete* (which may also need the sibling a collapsing branch is merged with) the on-path clause, reference counts on failure of pruning tries, and the retry-converges clause are bounded only.",
     "C08": 'Discharged: _traverse_from / _traverse (the node reached holds exactly the keys below the consumed prefix -- view equation for an arbitrary continuation --, the remainder is a suffix of the key, a non-empty remainder lies strictly inside a leaf / extension path); annotate_node (type, sub-segments, value, suffix are the spec functions of the raw node; the branch comprehension is handled without a 2^16 case split); traverse, traverse_from and root_node: the returned annotated node is the node at that position, a TraversedPartialPath carries pieces that make up the path, the enclosing leaf / extension, a tail that runs (properly) into its path and a simulated node that is that node with the tail cut off; missing-node reports as in C07. `blank exactly when no stored key starts with the path` (needs: a non-blank canonical node holds a key) and `at most one database entry per child hop` are bounded only.',
     "C12": "Discharged: BinaryTrie._get = blk; _set: view clause for insert / delete / delete-subtrie on all paths, refusal exactly when the walk says so (brefuse), store only grows by content-addressed writes, insert never yields the blank root; get / exists / set / delete / delete_subtrie wrappers (root unchanged on refusal); every node written is canonical -- well formed, no blank child, and a kv node never directly over another kv node (store-write obligation `canonical-node` at every _hash_and_save; the store invariant assumes the same of every node read) -- so every root the trie produces denotes a canonical trie. That a canonical trie is unique for its contents (history independence, root = hash of the canonical encoding) is the Lean theorem B.lean; the two are combined outside pyvc.",
